@@ -75,24 +75,28 @@ def _safe_run(scn):
     return run
 
 
-def _w_default(idx):
-    """Default execution, twice: returns points and a determinism verdict."""
+def _w_default(arg):
+    """Default continuation of a prefix, twice: returns points and a determinism verdict."""
+    if isinstance(arg, tuple):
+        idx, prefix, expect, ctx = arg
+    else:
+        idx, prefix, expect, ctx = arg, [], None, None
     scn = _SCN[idx]
     run = _safe_run(scn)
     outs = []
-    for _ in range(2):
-        ch = X.Chooser()
+    nodet = bool(scn.p.get('nodet'))
+    for _ in range(1 if nodet else 2):
+        ch = X.Chooser(prefix, expect, ctx)
         res = run(ch)
         outs.append((ch.choices, [p[0] for p in ch.points], res.outcome, sorted(res.states),
                      res.aborted, res.violations))
-    same = json.dumps(outs[0], default=repr, sort_keys=True) == json.dumps(outs[1], default=repr, sort_keys=True)
-    ch = X.Chooser()
-    res = run(ch)
-    return idx, [(p[0], p[1], p[2]) for p in ch.points], same
+    same = nodet or (json.dumps(outs[0], default=repr, sort_keys=True) ==
+                     json.dumps(outs[1], default=repr, sort_keys=True))
+    return idx, [(p[0], p[1], p[2]) for p in ch.points], same, list(ch.choices), ch.cost
 
 
 def _w_item(item):
-    idx, prefix, expect, bound, deadline_wall = item
+    idx, prefix, expect, bound, deadline_wall, ctx, min_point = item
     scn = _SCN[idx]
     st = X.Stats()
     try:
@@ -101,7 +105,7 @@ def _w_item(item):
             from vt.clock import _real_time
             dl = perf() + max(0.0, deadline_wall - _real_time())
         X.explore(_safe_run(scn), bound, prefix=prefix, expect=expect, stats=st, deadline=dl,
-                  scenario=scn.describe())
+                  scenario=scn.describe(), ctx=ctx, min_point=min_point)
     except X.ReplayDivergence as e:
         st.violations.append({'clause': 'HARNESS.nondeterminism', 'detail': str(e), 'where': 'harness',
                               'scenario': scn.describe(), 'choices': list(prefix), 'labels': [],
@@ -115,9 +119,9 @@ def _w_item(item):
 
 
 def _w_replay(args):
-    idx, choices = args
+    idx, choices, ctx = args
     scn = _SCN[idx]
-    ch = X.Chooser(choices)
+    ch = X.Chooser(choices, None, ctx)
     res = _MOD.run(scn, ch)
     return [(c, d, w) for (c, d, w) in res.violations], res.aborted, ch.chosen_labels(), res.info.get('trace')
 
@@ -128,41 +132,101 @@ def make_pool(modname, tier, nproc=None):
     return ctx.Pool(nproc or NPROC, initializer=_init_worker, initargs=(modname, tier))
 
 
+def _items_for(idx, points, choices, first, bound, deadline_wall, ctx):
+    """One work item per (point >= first, alternative) of a default continuation."""
+    items = []
+    labels = [p[0] for p in points]
+    for i in range(first, len(points)):
+        label, n, costs = points[i]
+        for alt in range(1, n):
+            items.append((idx, list(choices[:i]) + [alt], labels[:i + 1], bound, deadline_wall, ctx, i + 1))
+    return items
+
+
 def run_explorer_property(mod, tier, seed, budget_s):
-    """Generic driver for explorer-based properties.  Returns (stats, meta)."""
+    """Generic driver for explorer-based properties.  Returns (stats, meta, scenarios).
+
+    Plain mode: every scenario is explored from its start with the scenario's deviation bound.
+    Graph mode (mod.GRAPH = generations per tier): breadth-first search over quiescent daemon states.
+    A state is the choice list (history) that reaches it; each generation explores, from every *new*
+    canonical state, all bursts of <= bound deviations, and canonical digests deduplicate the frontier."""
     t0 = perf()
     modname = mod.__name__
     scns = mod.scenarios(tier)
     meta = {'scenarios': len(scns), 'nondeterministic_scenarios': []}
     deadline_wall = time.time() + budget_s
     total = X.Stats()
+    gens = getattr(mod, 'GRAPH', {}).get(tier, 0)
     with make_pool(modname, tier) as pool:
-        defaults = pool.map(_w_default, range(len(scns)), chunksize=1)
-        items = []
-        for idx, points, same in defaults:
-            if not same:
-                meta['nondeterministic_scenarios'].append(scns[idx].describe())
-            bound = mod.bound(tier, scns[idx])
-            # the default execution itself
-            items.append((idx, [], None, 0, deadline_wall))
-            if bound >= 1:
-                labels = [p[0] for p in points]
-                for i, (label, n, costs) in enumerate(points):
-                    for alt in range(1, n):
-                        if costs[alt] <= bound:
-                            items.append((idx, [0] * i + [alt], labels[:i + 1], bound, deadline_wall))
-        # rotate deterministically by seed: same set, different order
-        if items:
-            k = seed % len(items)
-            items = items[k:] + items[:k]
-        meta['work_items'] = len(items)
-        done = 0
-        for idx, st in pool.imap_unordered(_w_item, items, chunksize=1):
-            total.merge(st)
-            done += 1
-        meta['work_items_done'] = done
+        if not gens:
+            defaults = pool.map(_w_default, range(len(scns)), chunksize=1)
+            items = []
+            for idx, points, same, choices, cost in defaults:
+                if not same:
+                    meta['nondeterministic_scenarios'].append(scns[idx].describe())
+                bound = mod.bound(tier, scns[idx])
+                items.append((idx, [], None, 0, deadline_wall, None, None))
+                if bound >= 1:
+                    items += _items_for(idx, points, choices, 0, bound, deadline_wall, None)
+            if items:
+                k = seed % len(items)
+                items = items[k:] + items[:k]
+            meta['work_items'] = len(items)
+            for idx, st in pool.imap_unordered(_w_item, items, chunksize=1):
+                total.merge(st)
+        else:
+            seen = {}                      # (scenario idx, digest) -> generation discovered
+            frontier = [(idx, [], None) for idx in range(len(scns))]
+            per_gen = []
+            for g in range(1, gens + 1):
+                ctx = {'gens': g}
+                if time.time() > deadline_wall:
+                    total.capped = 'time (before generation %d)' % g
+                    break
+                defaults = pool.map(_w_default, [(idx, pre, exp, ctx) for (idx, pre, exp) in frontier],
+                                    chunksize=1)
+                items = []
+                for (idx, pre, exp), (_, points, same, choices, cost) in zip(frontier, defaults):
+                    if not same:
+                        meta['nondeterministic_scenarios'].append(scns[idx].describe())
+                    bound = cost_of(points, choices, len(pre)) + mod.bound(tier, scns[idx], g)
+                    # the default continuation itself (no deviation in this generation)
+                    items.append((idx, list(pre), exp, 0, deadline_wall, ctx, None))
+                    items += _items_for(idx, points, choices, len(pre), bound, deadline_wall, ctx)
+                if items:
+                    k = seed % len(items)
+                    items = items[k:] + items[:k]
+                new_states = {}
+                gen_stats = X.Stats()
+                for idx, st in pool.imap_unordered(_w_item, items, chunksize=1):
+                    for dg, hist in st.finals.items():
+                        key = (idx, dg)
+                        if key not in seen and key not in new_states:
+                            new_states[key] = hist
+                        elif key in new_states and len(hist[0]) < len(new_states[key][0]):
+                            new_states[key] = hist
+                    st.finals = {}
+                    gen_stats.merge(st)
+                total.merge(gen_stats)
+                for key in new_states:
+                    seen[key] = g
+                per_gen.append({'generation': g, 'frontier_states': len(frontier), 'work_items': len(items),
+                                'executions': gen_stats.executions, 'new_states': len(new_states)})
+                # deterministic order of the next frontier
+                frontier = [(key[0], hist[0], hist[1]) for key, hist in sorted(new_states.items())]
+                if gen_stats.capped:
+                    break
+                if not frontier:
+                    break
+            total.states = set('%d:%s' % k for k in seen)
+            meta['generations'] = per_gen
+            meta['graph_closed'] = bool(per_gen) and per_gen[-1]['new_states'] == 0
     meta['wall_explore_s'] = round(perf() - t0, 2)
     return total, meta, scns
+
+
+def cost_of(points, choices, upto):
+    return sum(points[i][2][choices[i]] for i in range(min(upto, len(points))))
 
 
 def confirm_and_report(mod, tier, stats, scns, prop_id):
@@ -193,8 +257,8 @@ def confirm_and_report(mod, tier, stats, scns, prop_id):
                 new += 1
                 continue
             idx = name_to_idx.get(json.dumps(v['scenario'], sort_keys=True))
-            r1 = pool.apply(_w_replay, ((idx, v['choices']),))
-            r2 = pool.apply(_w_replay, ((idx, v['choices']),))
+            r1 = pool.apply(_w_replay, ((idx, v['choices'], v.get('ctx')),))
+            r2 = pool.apply(_w_replay, ((idx, v['choices'], v.get('ctx')),))
             c1 = sorted(set(c for c, d, w in r1[0]))
             c2 = sorted(set(c for c, d, w in r2[0]))
             if c1 != c2 or v['clause'] not in c1:
@@ -241,7 +305,7 @@ def replay_file(mod, path, tier='quick'):
         return 2
     fails = []
     for _ in range(2):
-        ch = X.Chooser(v['choices'])
+        ch = X.Chooser(v['choices'], None, v.get('ctx'))
         res = mod.run(scn, ch)
         fails.append(sorted(set(c for c, d, w in res.violations)))
         last = res
